@@ -15,7 +15,11 @@ evaluated for *this* configuration, macros stay unexpanded, so `COAP_API`, `coap
      function-pointer typedefs of the *public* headers) must sit inside the argument list of
      coap_lock_callback / _ret / _release / _ret_release / coap_lock_invert.
 
-Output: JSON {api: [...], callbacks: [...], files: n}.
+ (c) extract/lockbal.py: every function definition is interpreted over the lock depth relative to its entry; the
+     functions that release / take the lock themselves (release windows around blocking waits, callback-release
+     macros, COAP_API wrappers, coap_new_context) are listed with their balance facts.
+
+Output: JSON {api: [...], callbacks: [...], lockfns: [...], files: n, functions_scanned: n}.
 """
 import json, os, re, subprocess, sys
 from concurrent.futures import ThreadPoolExecutor
@@ -410,8 +414,16 @@ def scan(bdir, repo):
         fname = os.path.basename(src)
         api += scan_api(text, fname)
         cbs += scan_callbacks(text, fname, types, fields, IGNORE_TYPES)
-    return {"api": api, "callbacks": cbs, "files": len(srcs), "types": len(types), "fields": sorted(fields)}
+    # (c) lock balance of every function that releases / takes the lock itself (extract/lockbal.py)
+    import lockbal
+    bad = lockbal.selftest()
+    if bad:
+        raise RuntimeError("lockbal selftest failed:\n" + "\n".join(bad))
+    lb = lockbal.analyse([(os.path.basename(src), text) for (src, _), text in zip(srcs, texts)])
+    return {"api": api, "callbacks": cbs, "files": len(srcs), "types": len(types), "fields": sorted(fields),
+            "lockfns": lb["functions"], "functions_scanned": lb["scanned"], "needs_lock": lb["needsLock"]}
 
 
 if __name__ == "__main__":
+    sys.path.insert(0, os.path.dirname(os.path.abspath(__file__)))
     json.dump(scan(sys.argv[1], sys.argv[2]), sys.stdout, indent=1)
